@@ -413,17 +413,81 @@ def psbt_version0(b: bytes) -> bytes | None:
     return b[:end] + _kv(b"\xfb", bytes(4)) + b[end:]
 
 
+def _kv_maps(b: bytes) -> list[list[tuple[bytes, bytes]]]:
+    from btclib import var_int
+
+    pos, out = 5, []
+    while pos < len(b):
+        st = io.BytesIO(b[pos:])
+        m = []
+        while True:
+            kl = var_int.parse(st)
+            if kl == 0:
+                break
+            k = st.read(kl)
+            m.append((k, st.read(var_int.parse(st))))
+        out.append(m)
+        pos += st.tell()
+    return out
+
+
+def lost_pairs_class(b: bytes, reser: bytes) -> str:
+    """Name what a re-serialization lost (for the finding key only; the verdict is TLC's)."""
+    try:
+        A, B = _kv_maps(b), _kv_maps(reser)
+    except Exception:  # noqa: BLE001
+        return ""
+    if len(A) != len(B):
+        return "map count differs"
+    kinds = set()
+    for x, y in zip(A, B):
+        lost = set(x) - set(y)
+        if not lost:
+            continue
+        finalized = any(k[:1] in (b"\x07", b"\x08") and len(k) == 1 for k, _ in x)
+        for k, _ in lost:
+            if finalized and k[:1] not in (b"\x07", b"\x08", b"\x00", b"\x01"):
+                kinds.add("finalized input drops its signing fields")
+            elif k == b"\xfb":
+                kinds.add("explicit version 0")
+            else:
+                kinds.add(f"key type {k[:1].hex()}")
+    return "+".join(sorted(kinds))
+
+
+def finalized_reproducer(seeds_: list[bytes]) -> bytes | None:
+    """Deterministic: the first vendored PSBT (in sorted order) with a finalized input, given one more signing field."""
+    for s in sorted(seeds_):
+        try:
+            maps = _kv_maps(s)
+        except Exception:  # noqa: BLE001
+            continue
+        for j, m in enumerate(maps[1:], start=1):
+            if any(k in (b"\x07", b"\x08") for k, _ in m) and not any(k[:1] == b"\x16" for k, _ in m):
+                extra = _kv(b"\x16" + bytes(range(1, 33)), b"\x01" + bytes(range(32, 64)) + bytes.fromhex("73c5da0a") + (0x80000056).to_bytes(4, "little"))
+                body = b"".join(b"".join(_kv(k, v) for k, v in mm) + (extra if jj == j else b"") + b"\x00" for jj, mm in enumerate(maps))
+                from btclib.psbt.psbt import Psbt
+
+                try:
+                    Psbt.parse(s[:5] + body)
+                except Exception:  # noqa: BLE001
+                    break
+                return s[:5] + body
+    return None
+
+
 def record_psbt(run: Run, rnd: random.Random, limit: int, evs: list[dict[str, Any]]) -> int:
     from btclib.exceptions import BTClibException
     from btclib.psbt.psbt import Psbt
 
     seeds_ = psbt_seeds()
+    repro = finalized_reproducer(seeds_)
     rnd.shuffle(seeds_)
     n = 0
     accepted_n = 0
-    for s in seeds_[:limit]:
-        v0 = psbt_version0(s)
-        for b in [s] + enrich_psbt(s, rnd) + ([v0] if v0 else []):
+    for s in seeds_[:limit] + ([repro] if repro else []):
+        v0 = psbt_version0(s) if s is not repro else None
+        for b in [s] + (enrich_psbt(s, rnd) if s is not repro else []) + ([v0] if v0 else []):
             n += 1
             try:
                 p = Psbt.parse(b)
@@ -437,7 +501,7 @@ def record_psbt(run: Run, rnd: random.Random, limit: int, evs: list[dict[str, An
                 acc, reser, reser2 = False, b"", b""
                 run.note(f"Psbt.parse raised {type(e).__name__} (C19's subject)")
             evs.append({"op": "psbt", "cls": "Psbt", "b": b.hex(), "accepted": acc, "reser": reser.hex(), "reser2": reser2.hex(),
-                        "variant": "explicit version 0" if (v0 is not None and b is v0) else ""})
+                        "variant": lost_pairs_class(b, reser) if acc else ""})
             if acc:
                 try:
                     d = json.loads(json.dumps(p.to_dict()))
